@@ -17,6 +17,8 @@ package c04
 import (
 	"fmt"
 	"math/rand"
+	"runtime"
+	"sync"
 
 	"verifharness/internal/evid"
 )
@@ -44,14 +46,21 @@ func Spec() *evid.Spec {
 		},
 		MinNontrivial: 200,
 		Lanes: []evid.Lane{
-			{Name: "hist", Children: evid.Const(16, 16), Cases: evid.Const(190, 4000), TimeoutS: evid.Const(300, 3000), Run: runHistLane},
-			{Name: "crashenum", Children: evid.Const(16, 16), Cases: evid.Const(1, 19), TimeoutS: evid.Const(300, 3000), Run: runEnumLane},
-			{Name: "conc", Race: true, Children: evid.Const(16, 16), Cases: evid.Const(60, 1200), TimeoutS: evid.Const(300, 3000), Run: runConcLane},
+			{Name: "hist", Children: evid.Const(16, 16), Cases: evid.Const(190, 4000), TimeoutS: evid.Const(600, 3600), Run: runHistLane},
+			{Name: "crashenum", Children: evid.Const(16, 16), Cases: evid.Const(1, 19), TimeoutS: evid.Const(600, 3600), Run: runEnumLane},
+			{Name: "conc", Race: true, Children: evid.Const(16, 16), Cases: evid.Const(60, 1200), TimeoutS: evid.Const(600, 3600), Run: runConcLane},
 		},
 	}
 }
 
+var procsOnce sync.Once
+
+// limitProcs: a sequential lane runs 16 children side by side; leaving every child 16 Ps only makes
+// badger's goroutine hand-offs spin (measured: 45% of the CPU time in futex / work stealing).
+func limitProcs(n int) { procsOnce.Do(func() { runtime.GOMAXPROCS(n) }) }
+
 func runHistLane(c *evid.Case) {
+	limitProcs(2)
 	if !realEpochOK() {
 		c.Inconclusive("the wall clock of this machine is before/near mainnet genesis: the far-future guard of eth2-key-manager would interfere")
 		return
@@ -61,7 +70,7 @@ func runHistLane(c *evid.Case) {
 		nShares:      1 + rng.Intn(3),
 		nOps:         30 + rng.Intn(31),
 		randomFaults: true,
-		onDisk:       c.Tier == "thorough" && c.Index%8 == 7,
+		onDisk:       c.Tier == "thorough" && c.Index%40 == 39,
 		tag:          fmt.Sprintf("hist-%d-%d", c.Idx, c.Index),
 		lane:         "hist",
 	}
@@ -91,6 +100,7 @@ func finishHistory(c *evid.Case, res *histResult, lane string) {
 
 // runEnumLane: one fault-free history, then the same seed once per (storage operation k, before|after).
 func runEnumLane(c *evid.Case) {
+	limitProcs(2)
 	if !realEpochOK() {
 		c.Inconclusive("wall clock before/near mainnet genesis")
 		return
